@@ -1,7 +1,15 @@
 //! verification harness for DanielT/autosar-data (runtime monitoring)
 #![allow(clippy::too_many_arguments, clippy::type_complexity, clippy::collapsible_if, clippy::collapsible_else_if)]
 pub mod c18;
+pub mod hist;
+pub mod histprops;
 pub mod json;
+pub mod lockmon;
+pub mod monitors;
+pub mod panicmon;
 pub mod report;
 pub mod rng;
 pub mod specwalk;
+pub mod srcindex;
+pub mod values;
+pub mod walk;
